@@ -456,10 +456,10 @@ func checkLarge(r *ev.Run, bounds map[string]interface{}) {
 		pms = append(pms, pm{24, 784931}, pm{27, 1<<32 - 1}, pm{3, 10}, pm{17, 131071})
 	}
 	for _, n := range ns {
-		for _, p := range pms {
+		for pi, p := range pms {
 			for k := 1; k < 3; k++ {
-				if !r.Thorough() && k == 1 && n == 5000 {
-					continue
+				if !r.Thorough() && n == 5000 && (k == 1 || pi >= 4) {
+					continue // quick: N=5000 with the first four (P,M) pairs and one key only
 				}
 				cases = append(cases, &Case{Kind: "gcs-large", Large: &LargeCase{N: n, P: p.P, M: p.M, Key: k}})
 			}
@@ -476,7 +476,7 @@ func checkLarge(r *ev.Run, bounds map[string]interface{}) {
 	})
 	col.report(r, "gcs-large")
 	r.Add("gcs_large_cases", int64(len(cases)))
-	bounds["gcs_large"] = map[string]interface{}{"N": ns, "PM": fmt.Sprint(pms), "keys": 2, "elements": "BE32(i) || (i%7)*0xA5"}
+	bounds["gcs_large"] = map[string]interface{}{"N": ns, "PM": fmt.Sprint(pms), "keys": 2, "quick_restriction": "N=5000 only with the first four (P,M) pairs and one key", "cases": len(cases), "elements": "BE32(i) || (i%7)*0xA5"}
 }
 
 // ---------------------------------------------------------------------------
